@@ -227,8 +227,10 @@ def run(tier, seed, replay=None):
         if prop_fail:
             violations.append(dict(kind='property', request=reqs[i], impl=keys, model=m['subst'], subs=subs, oracle=prop_fail))
         elif keys != m['subst']:
-            violations.append(dict(kind='correspondence', request=reqs[i], impl=keys, model=m['subst'], subs=subs,
-                                   oracle='corr:hook/subst: implementation and Coq model disagree'))
+            # the model's result IS the specified enumeration (theorem C10_exact_enumeration:
+            # subst_key = spec_key), so this input is a failing input of the property itself
+            violations.append(dict(kind='property', request=reqs[i], impl=keys, model=m['subst'], subs=subs,
+                                   oracle='the re-expressions differ from the specified enumeration spec_key (one result per choice among the parameters bound to each value that occurs, every occurrence replaced): Coq model = spec by theorem C10_exact_enumeration'))
     return finish('C10', tier, seed, gate, cases, stats, nontrivial, violations, known_lines,
                   rule='corpus + random (general header, theta, specific = general[theta]) with ground/parametric/non-injective/partial/identity theta; per pair two bounds in the image (key written over the general header, then instantiated) and one written over the specific header (possibly outside the image); non-trivial = distinct request with a non-identity substitution',
                   samples=[dict(request=reqs[i], impl=resp[i].split('\t')[-1][:300]) for i in range(0, len(reqs), max(1, len(reqs) // 6))][:6])
